@@ -539,3 +539,167 @@ Proof.
 Qed.
 
 End Trace2.
+
+Section Trace3.
+Context {CC : Type} (cci : cc_iface CC).
+Hypothesis Hcc : cc_total cci.
+Variables ti tm : Z.
+Notation vsock := (vsock CC).
+
+Lemma emits_in : forall (s3 : vsock) r p l l0 w a,
+  v_out s3 = l ++ p :: l0 -> ch_type (p_hdr p) = ST_DATA -> 1 <= Z.of_nat (length (p_payload p)) ->
+  emits (FrPoll r (map fpacket_of (rev (v_out s3))) w a)
+        (fun q => match ch_type (fq_hdr q) with ST_DATA => 1 <=? fq_plen q | _ => false end) = true.
+Proof.
+  intros s3 r p l l0 w a H H0 H1. cbn [emits]. apply existsb_exists. exists (fpacket_of p). split.
+  - apply in_map. rewrite <- in_rev. rewrite H. apply in_or_app. right. left. reflexivity.
+  - cbn [fpacket_of fq_hdr fq_plen]. rewrite H0. apply Z.leb_le. exact H1.
+Qed.
+
+Lemma fstep_of_write_dropped : forall (s : vsock) buf,
+  writer_dropped (v_tx s) = true -> fs_result (fstep_of cci s (VoWrite buf)) = FrNone.
+Proof. intros s buf H. unfold fstep_of. cbn [vstep]. rewrite H. reflexivity. Qed.
+
+Lemma fstep_of_write : forall (s : vsock) buf tx1 r w,
+  writer_dropped (v_tx s) = false -> poll_write (v_tx s) buf = (tx1, r, w) ->
+  fs_result (fstep_of cci s (VoWrite buf)) = FrWrite r /\
+  fs_now (fstep_of cci s (VoWrite buf)) = v_env_now s /\
+  vstep_state cci s (VoWrite buf) = set_tx s tx1.
+Proof.
+  intros s buf tx1 r w H E. unfold fstep_of, vstep_state. cbn [vstep]. rewrite H, E. repeat split.
+Qed.
+
+Lemma prompt_write_check : forall cfg (s : vsock) a o0 o1 o2,
+  PI ti tm s a -> op_clock_ok o0 -> op_clock_ok o1 ->
+  poll_finished (vstep_out cci s o0) = false ->
+  poll_finished (vstep_out cci (vstep_state cci s o0) o1) = false ->
+  (if prompt_window cfg (c10_acc_next a (fstep_of cci s o0)) (fstep_of cci s o0)
+        (fstep_of cci (vstep_state cci s o0) o1)
+        (fstep_of cci (vstep_state cci (vstep_state cci s o0) o1) o2) &&
+      idle_seq_ok (fs_pre (fstep_of cci (vstep_state cci s o0) o1)) &&
+      no_imm_ack (fs_pre (fstep_of cci (vstep_state cci s o0) o1))
+   then match fs_event (fstep_of cci (vstep_state cci s o0) o1),
+              fs_result (fstep_of cci (vstep_state cci s o0) o1) with
+        | FeWrite _, FrWrite (WrOk n) =>
+            if can_send_new (fs_now (fstep_of cci (vstep_state cci s o0) o1)) n
+                            (fs_pre (fstep_of cci (vstep_state cci s o0) o1))
+            then emits_data (fstep_of cci (vstep_state cci (vstep_state cci s o0) o1) o2) else true
+        | _, _ => true
+        end
+   else true) = true.
+Proof.
+  intros cfg s a o0 o1 o2 HP Ho0 Ho1 Hl0 Hl1.
+  pose proof (PI_step cci Hcc ti tm s a o0 HP Ho0 Hl0) as HP1.
+  remember (vstep_state cci s o0) as s1 eqn:Es1. remember (c10_acc_next a (fstep_of cci s o0)) as a1 eqn:Ea1.
+  pose proof (PI_step cci Hcc ti tm s1 a1 o1 HP1 Ho1 Hl1) as HP2.
+  remember (vstep_state cci s1 o1) as s2 eqn:Es2.
+  match goal with |- (if ?g then _ else _) = true => destruct g eqn:G end; [|reflexivity].
+  apply andb_true_iff in G. destruct G as [G Gack]. apply andb_true_iff in G. destruct G as [G Gseq].
+  unfold prompt_window in G. repeat (apply andb_true_iff in G; destruct G as [G ?]).
+  rename H into Glim, H0 into Gnow, H1 into Gplain. rename G into Gpark.
+  rewrite fstep_of_pre in *.
+  destruct o1; try (rewrite fstep_of_event; reflexivity).
+  (* the write *)
+  rewrite fstep_of_event. cbn [fevent_of].
+  destruct (writer_dropped (v_tx s1)) eqn:Ewd.
+  { rewrite (fstep_of_write_dropped s1 buf Ewd). reflexivity. }
+  destruct (poll_write (v_tx s1) buf) as [[tx1 wr] w] eqn:Ew.
+  destruct (fstep_of_write s1 buf tx1 wr w Ewd Ew) as (W1 & W2 & W3).
+  rewrite W1, W2. rewrite W3 in Es2. subst s2.
+  destruct wr as [n| | | |]; try reflexivity.
+  destruct (can_send_new (v_env_now s1) n (fp_of_vsock cci s1)) eqn:Cs; [|reflexivity].
+  (* st0 is a Pending poll *)
+  unfold parked_idle in Gpark.
+  destruct o0; try (rewrite fstep_of_event in Gpark; discriminate Gpark).
+  destruct (poll cci (VSockRec.set_sends s script)) as [s1' r0] eqn:E0.
+  destruct (vstep_poll cci s script s1' r0 E0) as [V1 _]. rewrite V1 in Es1. subst s1'.
+  rewrite (fstep_of_poll cci s script s1 r0 E0) in Gpark. cbn [fs_event fs_result fs_post] in Gpark.
+  destruct r0; try discriminate Gpark.
+  unfold idle_established, is_established, tx_idle in Gpark.
+  apply andb_true_iff in Gpark; destruct Gpark as [Gpark Gw].
+  apply andb_true_iff in Gpark; destruct Gpark as [Gpark Gtp].
+  apply andb_true_iff in Gpark; destruct Gpark as [Gest Gidle].
+  apply andb_true_iff in Gidle; destruct Gidle as [Glen Gsegs].
+  cbn [fp_of_vsock f_state f_tx_len f_segs f_transport_pending] in *.
+  assert (Est : v_state s1 = Established) by (destruct (v_state s1); try discriminate; reflexivity).
+  assert (Hring : ring (v_tx s1) = []).
+  { apply Z.eqb_eq in Glen. destruct (ring (v_tx s1)); [reflexivity|cbn [length] in Glen; lia]. }
+  assert (Es : ss_segs (v_segs s1) = []) by (destruct (ss_segs (v_segs s1)); [reflexivity|discriminate]).
+  apply negb_true_iff in Gtp.
+  assert (Hibe : IBE s1).
+  { destruct (poll_pending_ibe cci _ _ E0 Gtp) as [K|K]; [|exact K].
+    unfold SC in K. rewrite Est in K. discriminate. }
+  (* st2 is a plain poll *)
+  unfold plain_poll in Gplain.
+  destruct o2; try (rewrite fstep_of_event in Gplain; discriminate Gplain).
+  rewrite fstep_of_event in Gplain. cbn [fevent_of] in Gplain.
+  destruct script0; [|discriminate Gplain].
+  destruct (poll cci (VSockRec.set_sends (set_tx s1 tx1) [])) as [s3 r] eqn:E2.
+  unfold emits_data. rewrite (fstep_of_poll cci _ [] s3 r E2). cbn [fs_result].
+  (* the guards *)
+  unfold can_send_new in Cs. repeat (apply andb_true_iff in Cs; destruct Cs as [Cs ?]).
+  cbn [fp_of_vsock f_last_remote_window f_max_ss f_cc_window f_rto_retx f_recovery f_t_retransmit f_t_inactivity] in *.
+  unfold idle_seq_ok in Gseq. apply andb_true_iff in Gseq. destruct Gseq as [Gs1 Gs2].
+  unfold no_imm_ack in Gack.
+  cbn [fp_of_vsock f_last_sent_seq_nr f_snd_una f_cbu f_mss] in *.
+  destruct HP1 as (T1 & L1 & M1). destruct HP2 as (T2 & _ & _).
+  destruct (prompt_write_poll cci Hcc ti tm s1 tx1 n w buf s3 r T1 T2 Hibe Est Es Hring Ew) as (l & p & l0 & Q1 & Q2 & Q3);
+    try assumption.
+  - apply Z.leb_le in Cs. lia.
+  - apply Z.leb_le. assumption.
+  - apply Z.eqb_eq. assumption.
+  - unfold is_recovering. destruct (rv_phase (v_recovery s1)); [reflexivity|reflexivity|discriminate].
+  - apply negb_true_iff. assumption.
+  - apply negb_true_iff. assumption.
+  - apply Z.ltb_lt. exact Gack.
+  - apply Z.leb_le. exact Gs1.
+  - apply Z.leb_le. exact Gs2.
+  - intros m Hm. rewrite L1, Hm in Glim. apply Z.leb_le in Glim.
+    cbn [fp_of_vsock f_max_ss] in Glim. change (v_ss (set_tx s1 tx1)) with (v_ss s1) in Glim.
+    unfold UTP_HEADER in Glim. exact Glim.
+  - eapply emits_in; eassumption.
+Qed.
+
+Theorem c02_prompt_write_from_trace : forall cfg ops (s : vsock) a,
+  PI ti tm s a -> Forall op_clock_ok ops -> c02_prompt_write_from cfg a (ftrace cci s ops) = true.
+Proof.
+  intros cfg. induction ops as [|o0 rest IH]; intros s a HP Hoc; [reflexivity|].
+  inversion Hoc as [|? ? Ho0 Hrest]; subst.
+  rewrite ftrace_cons'.
+  destruct (poll_finished (vstep_out cci s o0)) eqn:F0; [reflexivity|].
+  pose proof (PI_step cci Hcc ti tm s a o0 HP Ho0 F0) as HP1.
+  specialize (IH (vstep_state cci s o0) (c10_acc_next a (fstep_of cci s o0)) HP1 Hrest).
+  destruct rest as [|o1 rest1]; [reflexivity|].
+  inversion Hrest as [|? ? Ho1 Hrest1]; subst.
+  rewrite ftrace_cons' in *.
+  destruct (poll_finished (vstep_out cci (vstep_state cci s o0) o1)) eqn:F1; [reflexivity|].
+  destruct rest1 as [|o2 rest2]; [reflexivity|].
+  rewrite ftrace_cons' in *.
+  cbn [c02_prompt_write_from] in *.
+  apply andb_true_iff. split; [|exact IH].
+  apply prompt_write_check; assumption.
+Qed.
+
+End Trace3.
+
+Section FromNew2.
+Context {CC : Type} (cci : cc_iface CC).
+Hypothesis Hcc : cc_total cci.
+
+(* the write half of c02_prompt (with the guards idle_seq_ok / no_imm_ack) on every model trace from a
+   fresh connection with a valid configuration and max_segment_retransmissions >= 1 *)
+Theorem c02_prompt_write_g_trace : forall cfg (mk : Z -> Z -> CC) c (s0 : vsock CC) ops,
+  vconfig_ok c = true -> 1 <= vc_max_retx c -> Forall op_clock_ok ops ->
+  vsock_new cci mk c = Some s0 -> c02_prompt_write_g cfg (ftrace cci s0 ops) = true.
+Proof.
+  intros cfg mk c s0 ops Hok Hmr Hoc H0.
+  destruct (vsock_new_x cci mk c Hok) as (s0' & E & Ht & Hl).
+  rewrite H0 in E. injection E as <-.
+  unfold c02_prompt_write_g. apply (c02_prompt_write_from_trace cci Hcc (vc_tx_init c) (vc_tx_max c)); [|exact Hoc].
+  split; [exact Ht|]. split; [rewrite Hl; reflexivity|].
+  unfold vsock_new in H0.
+  destruct (match (if vc_incoming c then None else _) with Some r => _ | None => _ end); [|discriminate].
+  injection H0 as <-. cbn [v_opts o_max_retx]. lia.
+Qed.
+
+End FromNew2.
